@@ -24,6 +24,7 @@ class Tracer:
         self.roots = set(root_types)
         self.max_depth = max_depth
         self.sites = 0
+        self.prim_sites = []      # (function, call node, tokens) for every primitive I/O call traced
 
     # ------------------------------------------------------------------ paths
     def var_types(self, fn):
@@ -214,7 +215,9 @@ class Tracer:
         on_stream = obj is not None and (obj == stream or self.npath(fn, obj, env, vt) == self.npath(fn, stream, env, vt))
         if c["k"] == "CXXMemberCallExpr" and on_stream and fq in PRIMS:
             self.sites += 1
-            return self.prim_token(fn, c, env, vt)
+            toks = self.prim_token(fn, c, env, vt)
+            self.prim_sites.append((fn, c, toks))
+            return toks
         if c["k"] == "CXXMemberCallExpr" and on_stream:
             nm = c.get("fname")
             if nm in ("Seek", "SeekForward", "SeekBackward"):
@@ -255,6 +258,7 @@ class Tracer:
         sub.sites = 0
         toks = sub._trace_with_this(cal, cstream, env2, depth + 1)
         self.sites += sub.sites
+        self.prim_sites += sub.prim_sites
         return toks
 
     def _trace_with_this(self, fn, stream, env, depth):
